@@ -48,6 +48,14 @@ type MPath struct {
 	End      int64
 	Pos      token.Pos
 	cbNonNil map[string]bool
+	// Mem: the field loads and stores executed on this path (in the loop body and the helpers it
+	// inlines), with the number of SPAWN effects that preceded each
+	Mem []MemAccess
+}
+
+type MemAccess struct {
+	Instr       ssa.Instruction
+	AfterSpawns int
 }
 
 func (p *MPath) Key() string {
@@ -223,6 +231,7 @@ func (s *mstate) clone() *mstate {
 	}
 	np := *s.path
 	np.Conds = append([]CondRec(nil), s.path.Conds...)
+	np.Mem = append([]MemAccess(nil), s.path.Mem...)
 	np.Effects = make([]*Effect, len(s.path.Effects))
 	n.checkRes = map[ssa.Value]*Effect{}
 	old2new := map[*Effect]*Effect{}
@@ -317,7 +326,9 @@ func buildModel(c *Ctx) *Model {
 				if i == 0 {
 					continue
 				}
-				if bt, ok := p.Type().Underlying().(*types.Basic); ok && bt.Kind() == types.Int {
+				// the status: the one parameter wide enough for an HRESULT (int on the pinned tree; a
+				// uint32 when the builders are typed for the wire)
+				if bt, ok := p.Type().Underlying().(*types.Basic); ok && (bt.Kind() == types.Int || bt.Kind() == types.Uint32 || bt.Kind() == types.Int32 || bt.Kind() == types.Int64 || bt.Kind() == types.Uint64 || bt.Kind() == types.Uint) {
 					if bi.StatusIdx != -1 {
 						bi.StatusIdx = -2
 					} else {
@@ -543,8 +554,14 @@ func (b *modelBuilder) walk(blk *ssa.BasicBlock, idx int, s *mstate, pre bool) {
 				if _, f, ok := fieldOfAddr(x.X); ok && f == b.stateF {
 					s.env[x] = constant.MakeInt64(s.st)
 				}
+				if _, _, ok := fieldOfAddr(x.X); ok {
+					s.path.Mem = append(s.path.Mem, MemAccess{x, len(s.path.All("SPAWN"))})
+				}
 			}
 		case *ssa.Store:
+			if _, _, ok := fieldOfAddr(x.Addr); ok {
+				s.path.Mem = append(s.path.Mem, MemAccess{x, len(s.path.All("SPAWN"))})
+			}
 			if _, f, ok := fieldOfAddr(x.Addr); ok && f == b.stateF {
 				v, ok := b.evalConst(s, x.Val)
 				if !ok || v.Kind() != constant.Int {
@@ -602,6 +619,8 @@ func (b *modelBuilder) walk(blk *ssa.BasicBlock, idx int, s *mstate, pre bool) {
 					}
 					if isNil(unspill(rv)) {
 						s.nilness[target] = true
+					} else if ec, isCall := strip(unspill(rv)).(*ssa.Call); isCall && (calleeName(ec) == "fmt.Errorf" || calleeName(ec) == "errors.New") {
+						s.nilness[target] = false // a freshly made error is never nil
 					} else if k, ok := s.nilness[strip(unspill(rv))]; ok {
 						s.nilness[target] = k
 					} else if k, ok := s.nilness[rv]; ok {
@@ -1012,6 +1031,13 @@ func packetTypeOf(v ssa.Value, bind map[*ssa.Parameter]ssa.Value, depth int) (t 
 	if calleeName(call) == modPath+"/cmd/rdpgw/protocol.createPacket" {
 		k, isC := constInt(resolve(arg(call, 0)))
 		return k, true, isC
+	}
+	// header-first: newPacket(T, n) extended by appends
+	if _, root, okc := appendChainFrom(call); okc && root != nil {
+		if ti, _, isH := headerHelper(root.Call.StaticCallee()); isH && ti < len(root.Call.Args) {
+			k, isC := constInt(resolve(root.Call.Args[ti]))
+			return k, true, isC
+		}
 	}
 	callee := call.Call.StaticCallee()
 	if callee == nil || !IsFirstParty(callee) || callee.Blocks == nil {
